@@ -65,7 +65,8 @@ def entry(sym, rng):
     if sym == "ninf":
         return "-inf"
     if sym == "cplx":
-        return ["c", rng.randint(-32, 32) / 8.0, rng.choice([-3, -1, 1, 2, 5]) / 4.0]
+        # imaginary parts of ordinary size and tiny ones (2**-20 .. 2**-60: a prediction is complex however small its imaginary part)
+        return ["c", rng.randint(-32, 32) / 8.0, rng.choice([-3, -1, 1, 2, 5, 2.0 ** -18, -2.0 ** -28, 2.0 ** -38, 2.0 ** -58]) / 4.0]
     raise ValueError(sym)
 
 
@@ -254,8 +255,10 @@ def pretty(v):
 
 def show(case):
     return {"class": case["cls"], "x": [pretty(v) for v in case["x"]], "y": [pretty(v) for v in case["y"]],
-            "sigma": [pretty(v) for v in case["s"]], "prediction": {"kind": case["pred"]["kind"],
-                                                                     "values": [pretty(v) for v in case["pred"]["vals"]]}}
+            "sigma": [pretty(v) for v in case["s"]], "prediction": dict({"kind": case["pred"]["kind"],
+                                                                          "values": [pretty(v) for v in case["pred"]["vals"]]},
+                                                                         **({"model": case["pred"]["form"], "parameters": case.get("a")}
+                                                                            if case["pred"]["kind"] == "model" else {}))}
 
 
 # ---------------------------------------------------------------- correspondence
@@ -369,6 +372,34 @@ def search(ctx):
             sv = [fl(sg * rng.choice([1.0, 2.0, 0.5])) for _ in range(nbig)]
             f = [fl(rng.uniform(0.5, 40)) for _ in range(nbig)]
             cases.append(mkcase(cls, x, y, sv, "vec", f, "finite-long"))
+            kinds.append("finite")
+        # (a3) real model functions whose value is finite and in the domain at every data point although an INTERMEDIATE result is
+        #      not (exp overflows to inf and 1/(1+inf) is 0; 1/x at the data point x = 0 is inf and 1/(a0+inf) is 0): the prediction
+        #      the property speaks about is finite, so the documented sum is due.  The expected prediction is computed here, in
+        #      Python floats with the overflow made explicit; the implementation evaluates the numpy expression itself.
+        for _ in range(6 if ctx.quick else 60):
+            n = rng.randint(3, 12)
+            form = rng.choice(["logistic", "invinv"])
+            cc = 0.5
+            if form == "logistic":
+                xs = sorted(rng.uniform(0, 100) for _ in range(n))
+                a = [rng.choice([20.0, 40.0, 64.0]), rng.uniform(30, 70)]
+                pv = []
+                for xv in xs:
+                    t = a[0] * (a[1] - xv)
+                    e = float("inf") if t > 709.0 else math.exp(t)
+                    pv.append(cc + 1.0 / (1.0 + e))
+                if not any(a[0] * (a[1] - xv) > 710.0 for xv in xs):
+                    xs[0], pv[0] = 0.0, cc
+            else:
+                xs = [0.0] + [rng.uniform(0.2, 3) for _ in range(n - 1)]
+                a = [rng.uniform(0.3, 2.0)]
+                pv = [cc] + [cc + 1.0 / (a[0] + 1.0 / xv) for xv in xs[1:]]
+            y = [fl(rng.uniform(0.2, 3)) for _ in range(n)]
+            sg = [fl(10 ** rng.uniform(-1, 0.5)) for _ in range(n)]
+            c = mkcase(cls, [fl(v) for v in xs], y, sg, "model", [fl(v) for v in pv], "finite-with-nonfinite-intermediate")
+            c["pred"]["form"], c["pred"]["c"], c["a"] = form, cc, a
+            cases.append(c)
             kinds.append("finite")
         # (b) special entries anywhere (also long vectors, several specials, complex dtype)
         bad_syms = ["nan", "pinf", "ninf", "cplx"]
